@@ -33,7 +33,7 @@ MANIFEST_ENTRY = {
           "from the reported entry is compared with the run alone.",
   "design_ref": "DESIGN.md section 8 C20"
  },
- "level_note": "Trusted: Coq kernel; extraction; the multi harness and OCaml driver; tools/codelib.py / c20.py (native relocation and "
+ "level_note": "On the whole operator fragment (every token list on which the reference parser Spec.Pratt.pratt is defined) the exclusion ~ Known_C05_K2 of the frame and relocation theorems is discharged (round 6: C20_frame_operator_expressions, C20_relocated_operator_expressions, through C05_operator_expressions_not_K2); outside the fragment the theorems keep that hypothesis (a class the parser is not known to produce: bounded checks and the stated invariant C05_parser_links_no_K2_statement). Trusted: Coq kernel; extraction; the multi harness and OCaml driver; tools/codelib.py / c20.py (native relocation and "
                "frame checks). Run comparison is made for programs that are stack-balanced (C06) - an unbalanced program can "
                "consume operands an earlier failed run left behind. Constants are compared as structural values (interning on "
                "SimpleGarnishData may share an earlier program's constant with equal content). Known finding C20-K2 (C20-K1 / C20-K3 repaired in build.rs b7aaffe).",
